@@ -72,6 +72,8 @@ pub fn dispatch(op: &str, backend: &str, args: &Value) -> Value {
     }
 }
 
+const TRAIT_FORMS: [&str; 7] = ["strict.source", "strict.target", "strict.identity", "strict.spider", "lax.identity", "lax.spider", "lax.tensor"];
+
 fn cmd_exec() {
     let stdin = std::io::stdin();
     let stdout = std::io::stdout();
@@ -100,6 +102,15 @@ fn cmd_exec() {
         }
         serde_json::to_writer(&mut out, &ev).unwrap();
         out.write_all(b"\n").unwrap();
+        // operations that exist both as an inherent method and as a method of a categorical trait:
+        // the same case is also performed through the trait (judged by the same relation)
+        if TRAIT_FORMS.contains(&op.as_str()) && !ev["args"].get("pre").is_some() {
+            let top = format!("{}_trait", op);
+            ev["obs"] = dispatch(&top, &backend, &ev["args"]);
+            ev["op"] = json!(top);
+            serde_json::to_writer(&mut out, &ev).unwrap();
+            out.write_all(b"\n").unwrap();
+        }
     }
     out.flush().unwrap();
 }
